@@ -13,6 +13,18 @@ EIG_NOTE = ('the contracts of scipy eigsh/eigs/eigh/eig and of sparse.remove_nul
             'ordering, positivity/ascending order of computed values and sparse/dense agreement are not decidable by contracts and are not claimed')
 
 CHECKS = {
+ 'C13': dict(
+    category='proof',
+    text=('PanelAssembly.__init__/get_size/calc_k0/calc_kG0/calc_kM/calc_kT/calc_fint/calc_fext and StiffPanelBay.get_size/calc_k0/calc_kG0/calc_kM are '
+          'executed symbolically from the real source (panels built by the real Panel constructor, kernels and stiffener matrices through their contracts): '
+          'ranges are consecutive and disjoint, size equals the sum of the component sizes, every component is evaluated with the global size at its own '
+          'offset (2-D stiffeners at the skin block plus the sizes of the 2-D stiffeners before them), the result is the (symmetrised) sum of exactly those '
+          'terms plus the connection matrix, each point force contributes F.g of its own panel at that panel\'s range with incrementable forces scaled.'),
+    design_ref='DESIGN.md section 4 (C13)',
+    note=('bounded in the NUMBER of components (1..3 panels, 0..2 stiffeners of each kind, 0..2 forces) with all sizes/positions/series orders symbolic; '
+          'component matrices through kernel contracts (C02-C04, C12); stiffener internals (BladeStiff*/TStiff2D.calc_*) and the stiffener kernels are not yet '
+          'under contract; skin-partition additivity rests on the sub-interval additivity of the table contracts (C10)'),
+    technique='contracts + symbolic execution of the Python ast; exact normal form for offsets; kernel contracts'),
  'C05': dict(
     category='proof',
     text=('analysis.lb and Panel.lb are executed symbolically over abstract arrays with symbolic sizes (size, number of non-null columns, requested count): '
